@@ -328,18 +328,35 @@ class ExecutionContext:
                     ref = instruction.Reference
                     var = localScope[instruction.Value.Reference]
 
-                    assert instruction.Type.IsScalar()
-
-                    if isinstance(instruction.Type, LinearIR.IntegerType):
-                        if not instruction.Type.Unsigned:
-                            var = math.floor(var)
+                    def CastScalar(value, scalarType):
+                        if isinstance(scalarType, LinearIR.IntegerType):
+                            if not scalarType.Unsigned:
+                                return math.floor(value)
+                            else:
+                                return abs(math.floor(value))
                         else:
-                            var = abs(math.floor(var))
-                    else:
-                        # Must be float
-                        assert isinstance(instruction.Type, LinearIR.FloatType)
+                            # Must be float
+                            assert isinstance(scalarType, LinearIR.FloatType)
 
-                        var = float(var)
+                            return float(value)
+
+                    # Vectors and matrices are cast component by component
+                    if instruction.Type.IsScalar():
+                        var = CastScalar(var, instruction.Type)
+                    elif instruction.Type.IsVector():
+                        var = [
+                            CastScalar(v, instruction.Type.ElementType)
+                            for v in var
+                        ]
+                    else:
+                        assert instruction.Type.IsMatrix()
+                        var = [
+                            [
+                                CastScalar(v, instruction.Type.ElementType)
+                                for v in row
+                            ]
+                            for row in var
+                        ]
 
                     localScope[ref] = var
                 case LinearIR.OpCode.CONSTRUCT_PRIMITIVE:
